@@ -165,6 +165,7 @@ class Life:
         self.completions = {}
         self.accepted = {}  # runner key -> [(time, trade)]
         self.executed_packages = set()
+        self.placed_client = {}
         self.reused_trades = set()  # trades that received an order after they had completed (outside the domain of a/b/d/e)
         self.tainted = set()  # runner keys of such trades
         self.keep_packages = []
@@ -247,6 +248,17 @@ class Life:
         return True, ""
 
     def post_action(self, w, st, market, act, o, out):
+        if act[0] in ("P", "PA") and out is True and o is not None:
+            # the client whose transaction placed the order (default client unless the strategy names one)
+            clients = getattr(w, "clients", None) or [getattr(w, "client", None)]
+            if act[0] == "PA":
+                self.placed_client[id(o)] = clients[act[2]]
+            else:
+                self.placed_client[id(o)] = clients[getattr(st, "client_idx", 0)]
+            self.keep_packages.append(o)
+        if act[0] == "PA":
+            self.c("re_placed_after_refusal" if out is True else "re_place_refused")
+            return
         if act[0] == "P":
             self.c("placed" if out is True else "place_refused")
             if "C10" in self.en and o is not None:
@@ -519,9 +531,10 @@ class Life:
         # every order accepted by place_order is in the blotter
         for st in w.strategies:
             for (mi, tk, act, out), o in _placed(st):
-                if out is True and not any(o is x for x in orders):
+                accepted = out is True or id(o) in self.placed_client  # incl. refused first, offered again and accepted
+                if accepted and not any(o is x for x in orders):
                     self.v("C15.a", ("orders", "missing", "placed"), "accepted order missing from the blotter")
-                if out is False and any(o is x for x in orders):
+                if not accepted and out is False and any(o is x for x in orders):
                     self.v("C15.a", ("orders", "extra", "refused"), "refused order present in the blotter")
         def once(view_name, view, o, origin):
             n = sum(1 for x in view if x is o)
@@ -530,6 +543,17 @@ class Life:
         for o in orders:
             origin = "replacement" if getattr(o, "_verif_origin", None) is None and _is_replacement(w, o) else "placed"
             st = o.trade.strategy
+            # the order belongs to the client that placed it (a replacement: the client of the order it replaces)
+            exp_client = self.placed_client.get(id(o))
+            if exp_client is None and origin == "replacement":
+                for x in o.trade.orders:
+                    if id(x) in self.placed_client:
+                        exp_client = self.placed_client[id(x)]
+                        break
+            if exp_client is not None:
+                self.c("clause:C15.a")
+                if o.client is not exp_client or not any(x is o for x in b.client_orders(exp_client)) or not any(x is o for x in b.client_strategy_orders(exp_client, st)):
+                    self.v("C15.a", ("client", "wrong-client", origin), "order placed through client %s is filed under client %s" % (exp_client.username, getattr(o.client, "username", None)))
             once("strategy", b.strategy_orders(st), o, origin)
             once("strategy_selection", b.strategy_selection_orders(st, o.selection_id, o.handicap), o, origin)
             once("client", b.client_orders(o.client), o, origin)
